@@ -414,6 +414,11 @@ func (fc *funcContext) translateExpr(expr ast.Expr) *expression {
 				}
 				return fc.formatExpr("%e / %e", e.X, e.Y)
 			case token.REM:
+				if !isUnsigned(basic) {
+					// The remainder of a negative dividend may be -0 in JavaScript, which
+					// would show after a conversion to a floating-point type.
+					return fc.formatExpr(`(%1s = %2e %% %3e, %1s === %1s ? %1s | 0 : $throwRuntimeError("integer divide by zero"))`, fc.newLocalVariable("_r"), e.X, e.Y)
+				}
 				return fc.formatExpr(`(%1s = %2e %% %3e, %1s === %1s ? %1s : $throwRuntimeError("integer divide by zero"))`, fc.newLocalVariable("_r"), e.X, e.Y)
 			case token.SHL, token.SHR:
 				op := e.Op.String()
